@@ -55,8 +55,15 @@ def run_property(pid, tier='quick', seed=0):
             r['_unit'] = u
             results.append(r)
             nf = sum(1 for o in r['obligations'] if o['status'] == 'FAILURE' and 'vf_canary' not in o['desc'])
-            log('[%s] unit %-40s %3d obligations, %d failed, %d undecided, %d errors  (%.1fs)' % (
-                pid, u.id, len(r['obligations']), nf, len(r['undecided']), len(r['errors']), r.get('seconds', 0)))
+            line = '[%s] unit %-40s %3d obligations, %d failed, %d undecided, %d errors  (%.1fs)' % (
+                pid, u.id, len(r['obligations']), nf, len(r['undecided']), len(r['errors']), r.get('seconds', 0))
+            log(line)
+            with open(os.path.join(workdir, 'units.log'), 'a') as lf:
+                lf.write(line + '\n')
+                for e in r['errors']:
+                    lf.write('    ERROR ' + e[:1500] + '\n')
+                for e in r['undecided']:
+                    lf.write('    UNDECIDED ' + e['name'] + '\n')
     results.sort(key=lambda r: r['unit'])
 
     # extra (non-CBMC) steps: stand-ins, INT back end; each returns dict(name, kind, ok, detail, violations=[...])
@@ -94,6 +101,10 @@ def run_property(pid, tier='quick', seed=0):
                 all_dropped[k] = all_dropped.get(k, 0) + v
             for x in m['externals']:
                 a = 'external %s modelled by an assumed contract (unit %s)' % (x, u.id)
+                if a not in assumptions:
+                    assumptions.append(a)
+            for x in m.get('uf_abstracted', []):
+                a = 'determinism abstraction: in relational lemmas the pure kernel %s is replaced by an uninterpreted function of its arguments (sound because the extraction subset admits only by-value parameters, no mutable globals and no static locals; its frame `assigns()` is proved where its own contract is enforced)' % x
                 if a not in assumptions:
                     assumptions.append(a)
             if m['sideeffect_args']:
